@@ -37,7 +37,7 @@ from sfv.canon import tok, err_cat, dtype_tok, array_toks
 TARGETS = ['SFModel.Props.C17']
 THEOREMS = [
     'SF.C17.bus_inv', 'SF.C17.bus_inv_reach', 'SF.C17.bus_lru', 'SF.C17.bus_lru_hit', 'SF.C17.bus_faithful',
-    'SF.C17.bus_faithful_step', 'SF.C17.bus_faithful_counterexample', 'SF.C17.bus_element_is_frame', 'SF.C17.bus_values_frames',
+    'SF.C17.bus_faithful_step', 'SF.C17.reader_reads_eager', 'SF.C17.bus_faithful_pinned_reader_counterexample', 'SF.C17.bus_element_is_frame', 'SF.C17.bus_values_frames',
     'SF.C17.bus_no_internal_error', 'SF.C17.bus_derive', 'SF.C17.bus_labels_fixed',
     'SF.C17.bus_bound_after_failed_read_counterexample', 'SF.C17.bus_sort_values_counterexample',
     'SF.C17.store_reader_batches_flatten', 'SF.C17.store_reader_batch_size',
@@ -64,12 +64,11 @@ ASSUMPTIONS = ['file events change the mtime to a different value (2 s apart); a
                'single-threaded use: the file cannot change between two reads of one access']
 BUDGET = {'quick': 60, 'thorough': 700}
 
-F10 = 'F10-bus-store-reader-config-key'
 F40 = 'F60-bus-lru-phantom-after-failed-read'
 F41 = 'F61-bus-sort-values-max-persist'
 F42 = 'F62-bus-placeholder-from-get-iter-element'
 F43 = 'F63-sqlite-integer-index-row-order'
-TAGS = {'f10': F10, 'phantom': F40, 'sortv': F41, 'placeholder': F42, 'sqlite_order': F43}
+TAGS = {'phantom': F40, 'sortv': F41, 'placeholder': F42, 'sqlite_order': F43}
 
 FMT_CORE = ['zip_pickle', 'zip_csv', 'zip_tsv', 'sqlite']
 FMT_OPTIONAL = {'xlsx': ('openpyxl', 'xlsxwriter'), 'hdf5': ('tables',), 'zip_parquet': ('pyarrow',)}
@@ -102,10 +101,12 @@ def tmpdir():
     return _STATE['tmp'].name
 
 
-def gen_key_variant():
+def pinned_reader_variant():
     """Behavioural probe of Bus._store_reader (max_persist == 1): which StoreConfig does the store get?
-    True = the map's default (the labels generator is used as key, code as written); False = the label's."""
-    if 'genkey' not in _STATE:
+    False = the label's (the code: `config[label]`); True = the map's default (historical reader of the pinned
+    tree, `config[labels]`, repaired in /repo).  The model is run with the variant in force; with the historical
+    reader the oracle reports the wrong frames as unlisted violations (F10 is no longer a known finding)."""
+    if 'pinned' not in _STATE:
         import static_frame as sf
         from static_frame.core.store import StoreConfig, StoreConfigMap
         own, dflt = StoreConfig(index_depth=2), StoreConfig(index_depth=1)
@@ -119,8 +120,8 @@ def gen_key_variant():
                 for l in labels:
                     yield config[l] if isinstance(config, StoreConfigMap) else config
         got = list(sf.Bus._store_reader(store=Probe(), config=cm, labels=iter(['a']), max_persist=1))
-        _STATE['genkey'] = got[0] is not own
-    return _STATE['genkey']
+        _STATE['pinned'] = got[0] is not own
+    return _STATE['pinned']
 
 
 # ------------------------------------------------------------------ frames
@@ -588,7 +589,7 @@ def model_lines(c):
         else:
             raise ValueError(o)
     mp = 'N' if c['mp'] is None else str(c['mp'])
-    gk = 1 if gen_key_variant() else 0
+    gk = 1 if pinned_reader_variant() else 0
     return [f'bus.run {mp} {gk} ({" ".join(str(rank[n]) for n in names)}) ({" ".join(ops)})']
 
 
@@ -904,8 +905,6 @@ def eval_hist(ctx, c, outs):
         tag = None
         if r == 'S':
             tag = 'sqlite_order'
-        elif r == 'D' and org == ('multi', 1):
-            tag = 'f10'
         fails.append(Failure('oracle', f'{fmt} mp={mp} step {step} {what}: frame under label {f.name!r} differs from the frame written'
                              + (' (read with the default StoreConfig instead of the label\'s)' if r == 'D' else '')
                              + (' (rows ordered by the integer index)' if r == 'S' else ''), c, detail={'tag': tag, 'label': f.name, 'verdict': r}))
@@ -1085,10 +1084,11 @@ def eval_hist(ctx, c, outs):
                         if ref.mp is not None:
                             ref.tainted = True
                     elif expect_err is None:
-                        tag = 'phantom' if (ref.tainted and status[1] == 'init') else None
-                        if mp == 1 and multi and any(cfg_differs(l) for l in need) and status[1] != 'storeMutation':
-                            tag = 'f10'   # the store was asked to read with the default config and could not build the frame
-                            abort = True
+                        # F60: an earlier access on this Bus failed with StoreFileMutation (phantom in the recency list), the
+                        # Bus now holds more than max_persist frames and Bus.__init__ refuses the selection (ErrorInitBus)
+                        tag = 'phantom' if (ref.tainted and status[1] == 'init' and int(bus._loaded.sum()) > ref.mp) else None
+                        if pinned_reader_variant() and mp == 1 and multi and any(cfg_differs(l) for l in need) and status[1] != 'storeMutation':
+                            abort = True  # historical reader only: the read with the default config could not build the frame
                         fails.append(Failure('oracle', f'{fmt} mp={mp} step {step}: access {key} raised {type(status[2]).__name__}: {status[2]}', c, detail={'tag': tag}))
                     elif status[1] != expect_err and not (expect_err in ('lookup', 'nonUnique', 'value') and status[1] in ('lookup', 'nonUnique', 'value', 'indexInit')):
                         fails.append(Failure('oracle', f'step {step}: access {key} raised {type(status[2]).__name__}, expected {expect_err}', c))
@@ -1180,7 +1180,7 @@ def eval_hist(ctx, c, outs):
                 elif what == 'shapes':
                     got = bus.shapes.values.tolist()
                     exp = [by_name[l].shape if flags0[l] else None for l in labs]
-                    if n and got != exp and not any(cfg_differs(l) for l in labs):
+                    if n and got != exp and not (pinned_reader_variant() and any(cfg_differs(l) for l in labs)):
                         fails.append(Failure('oracle', f'step {step}: shapes {got} != {exp}', c))
                 elif what == 'nbytes':
                     bus.nbytes
@@ -1258,8 +1258,8 @@ def eval_hist(ctx, c, outs):
                         newbus = (result, want)
                 elif expect_err is None:
                     tag = tag_on_err if status[1] == 'init' else None
-                    if tag is None and status[1] == 'init' and ref.tainted:
-                        tag = 'phantom'   # the parent holds more than max_persist frames: __init__ refuses the selection
+                    if tag is None and status[1] == 'init' and ref.tainted and int(bus._loaded.sum()) > ref.mp:
+                        tag = 'phantom'   # F60: the parent holds more than max_persist frames: __init__ refuses the selection
                     fails.append(Failure('oracle', f'{fmt} mp={mp} step {step}: {k} on a Bus of {n} raised {type(status[2]).__name__}: {status[2]}', c,
                                          detail={'tag': tag}))
             elif k == 'touch':
